@@ -136,6 +136,7 @@ type Flow struct {
 	failedAttemptTime time.Duration
 	StalledEarly      bool // the quiescence phase was declared because the world stalled with calls outstanding
 	QStartTime        time.Duration
+	QStartTick        time.Duration // TickTime when the quiescence phase began
 	FaultSteps        int
 
 	lastOnline     bool
@@ -895,6 +896,7 @@ func (f *Flow) stepHook() {
 	if f.C != nil && f.issuedStep != 0 && w.Steps-f.issuedStep >= f.O.Linger && f.pubTasksLive == 0 && f.reqTasksLive == 0 && f.InSent >= f.O.Inbound && f.QStartStep == 0 && f.quiesceReady() {
 		f.QStartStep = w.Steps
 		f.QStartTime = s.Now()
+		f.QStartTick = s.TickTime
 		f.FaultSteps = w.Steps
 		w.FaultsOff = true
 		// the per-run step cap belongs to the fault phase; the
@@ -927,6 +929,7 @@ func (f *Flow) stalledInFaultPhase() {
 	}
 	f.QStartStep = w.Steps
 	f.QStartTime = s.Now()
+	f.QStartTick = s.TickTime
 	f.FaultSteps = w.Steps
 	f.StalledEarly = true
 	w.Probe("stalled_with_call_outstanding")
@@ -1191,7 +1194,10 @@ func (f *Flow) done() bool {
 		return true
 	}
 	w := f.W
-	if f.S.Now()-f.QStartTime > f.L() {
+	// (time the scheduler itself let pass by tick actions while the client had
+	// work to do is scheduling latency, not the client's: it does not count
+	// against L; the step allowance S bounds such a phase)
+	if f.S.Now()-f.QStartTime-(f.S.TickTime-f.QStartTick) > f.L() {
 		return true
 	}
 	if w.Steps-f.QStartStep > f.stepAllowance() {
